@@ -40,6 +40,8 @@ from props.common import DT, U, is_rejection, recording
 
 ID = "C19"
 RULE = (
+    "[representations] the two tag values of the universe are the NFC and NFD spelling of the same text (different strings); the Term pool has variants "
+    "that pass an optional field's default (None) explicitly. "
     "space 1: every ordered selection of the tag universe as vocabulary (those with two equal members are outside "
     "the property's precondition: executed for the encoder only and counted vacuous) x every tag list up to the "
     "length bound x every score assignment over the score alphabet of that list length (see bounds); one 'encoder' case per vocabulary (encode of "
